@@ -242,7 +242,25 @@ def m_eye(I, e, args, kws):
     n = args[0]
     d = as_dim(n)
     out = Val(shp=n.flat().data | n.flat().shp, ctrl=n.flat().ctrl, shape=Shape([d, d]), unit=ONE, sign="NONNEG",
-              fresh="FRESH", tags={"kind": "ndarray", "ndim": 2})
+              fresh="FRESH", tags={"kind": "ndarray", "ndim": 2, "eye": d})
+    return out
+
+
+@model("numpy.kron")
+def m_kron(I, e, args, kws):
+    """np.kron(a, b): entry (i_a·rows_b + i_b, j_a·cols_b + j_b) = a[i_a, j_a]·b[i_b, j_b] — the FIRST factor is the major (block) index.
+    kron(eye(k), ones((1, n))) sums k contiguous blocks of n; kron(ones((1, n)), eye(k)) sums entries k apart (interleaved)."""
+    a, b = args[0], args[1]
+    out = mk([a, b], fresh="FRESH", unit=umul(a.unit, b.unit, 1), tags={"kind": "ndarray", "ndim": 2})
+    sa_, sb_ = a.shape, b.shape
+    if sa_ is not None and sb_ is not None and not sa_.ell and not sb_.ell and len(sa_.axes) == 2 and len(sb_.axes) == 2 \
+            and all(x is not None for x in sa_.axes + sb_.axes):
+        out.shape = Shape([dim_mul(sa_.axes[0], sb_.axes[0]), dim_mul(sa_.axes[1], sb_.axes[1])])
+    for first, (x, y) in ((True, (a, b)), (False, (b, a))):
+        if x.tag("eye") is not None and y.tag("ones") and y.shape is not None and len(y.shape.axes) == 2 and y.shape.axes[0] == ():
+            # a block-summation matrix: which index of the summed vector is the block (major) index?
+            out.tags["group_sum"] = {"groups": x.tag("eye"), "per_group": y.shape.axes[1], "contiguous": first}
+            I.emit("group_sum_matrix", e, groups=x.tag("eye"), per_group=y.shape.axes[1], contiguous=first, result=out)
     return out
 
 
@@ -676,6 +694,11 @@ def m_minmax2(I, e, args, kws):
     for x_, bound in ((a, b), (b, a)):
         if bound.known and _num_lit(bound.const) and not x_.known and x_.tag("kind") == "ndarray":
             lossy(I, e, out, x_, "clamp")          # np.maximum(x, 0): x clamped at a constant
+    for acc, new in ((a, b), (b, a)):
+        if acc.tag("zero_init") and acc.unit == POLY and new.tag("extremum") is not None:
+            # a running extremum kept in a buffer that starts at 0: the value 0 takes part like a sample of its own
+            name = M.norm_text(e.func).split(".")[-1]
+            I.emit("extremum", e, name=name, arg=new.tag("extremum")[1], result=out, initial=acc)
     return out
 
 
@@ -690,7 +713,7 @@ def m_where(I, e, args, kws):
     c, a, b = args
     # the configuration decides the mask: np.where(np.isfinite(ub), ub, v) with ub declared all-finite / all-infinite
     pred = c.tag("pred")
-    if pred is not None and pred[0] == "isfinite" and pred[1].tag("finite") is not None:
+    if pred is not None and pred[0] == "isfinite" and pred[1].tag("finite") in (True, False):
         pick = a if pred[1].tag("finite") else b
         out = _elementwise(I, e, [c, pick], unit=pick.unit, frame=pick.frame, sign=pick.sign)
         keep(out, pick, *LIN_TAGS)
@@ -705,6 +728,7 @@ def m_where(I, e, args, kws):
         if not ok:
             u = None
     out = _elementwise(I, e, [c, a, b], unit=u, frame=a.frame if a.frame == b.frame else None)
+    out.tags["row_select"] = True          # entries chosen by a mask: some rows are explicitly given another value
     # np.where(x > 0, x, nan) : positive-or-NaN mask idiom
     cmp_ = c.tag("cmp")
     if cmp_ is not None and cmp_[0] in ("Gt",) and cmp_[2].known and cmp_[2].const == 0 and cmp_[1].term == a.term \
@@ -864,10 +888,23 @@ def m_allany(I, e, args, kws):
     out.tags["allany"] = (name, args[0])
     x = args[0]
     pred = x.tag("pred")
-    if pred is not None and pred[0] == "isfinite" and pred[1].tag("finite") is not None:
+    if pred is not None and pred[1].tag("finite") == "mixed":
+        # some entries finite, some +inf (a configuration the bound validation is expected to reject)
+        if pred[0] in ("isfinite", "isposinf", "isinf"):
+            out.const = (name == "any")
+        elif pred[0] == "isneginf":
+            out.const = False
+    elif pred is not None and pred[0] == "isfinite" and pred[1].tag("finite") is not None:
         out.const = bool(pred[1].tag("finite"))
-    if pred is not None and pred[0] in ("isneginf", "isposinf", "isinf") and pred[1].tag("finite") is not None:
+    elif pred is not None and pred[0] in ("isneginf", "isposinf", "isinf") and pred[1].tag("finite") is not None:
         out.const = not bool(pred[1].tag("finite")) if pred[1].tag("finite") else U
+    pu = x.tag("pred_union")
+    if pu is not None and pu[1].tag("finite") is not None:
+        names, fin = pu[0], pu[1].tag("finite")
+        covers = ("isfinite" in names) if fin is True else (bool({"isposinf", "isinf"} & names) if fin is False else
+                                                            ("isfinite" in names and bool({"isposinf", "isinf"} & names)))
+        if covers:
+            out.const = True
     cmp_ = x.tag("cmp")
     if cmp_ is not None and name == "all" and cmp_[0] == "Eq" and cmp_[2].known and cmp_[2].const == 0 \
             and axis_arg(args, kws, 1, None) in (-1, 1):
